@@ -77,12 +77,15 @@ theorem neutral_flatMap {α} (f : α → List Tok) (l : List α) (h : ∀ a ∈ 
 def textRow : List Tok := [o tr, o td, o div, t, c div, c td, c tr]
 def rawLeaf : List Tok := [o i, t, c i]
 
-inductive Leaf | text | raw
+/-- `slot`: the place of any other content component (image, button, divider, social …): the component writes everything
+    itself, row and cell included; its markup is filled in by `Leaves` / `Expand` -/
+inductive Leaf | text | raw | slot
 deriving Repr
 
 def Leaf.toks : Leaf → List Tok
   | .text => textRow
   | .raw => rawLeaf
+  | .slot => [t]
 
 structure Column where
   gutter : Bool
@@ -460,6 +463,7 @@ theorem leaf_neutral (l : Leaf) : Neutral l.toks := by
   cases l
   · simpa [Leaf.toks] using frame0 textRow false false [] [] (by rfl) sd al
   · simpa [Leaf.toks] using frame0 rawLeaf false false [] [] (by rfl) sd al
+  · simpa [Leaf.toks] using frame0 [t] false false [] [] (by rfl) sd al
 
 theorem leaves_neutral (ls : List Leaf) : Neutral (ls.flatMap Leaf.toks) :=
   neutral_flatMap _ ls (fun a _ => leaf_neutral a)
